@@ -5,6 +5,7 @@ import Spine.LockTables
 import Spine.LockRW
 import Spine.LockObs
 import Spine.RaceHB
+import Spine.SliceCow
 import Spine.Generated.Locks
 /-!
 # C17 — concurrent use is free of data races and of deadlocks on the stack's own locks
@@ -20,7 +21,11 @@ Property theorems only. Two layers:
   from the tree under test on every run; `decide`, so a code change that alters a row re-checks
   them): `c17_lock_order_ranked`, `c17_no_lock_leak`, `c17_guarded_by`, `c17_common_lock_sound`,
   `c17_undisciplined_exact`, `c17_tables_wellformed`, `c17_package_state_guarded`,
-  `c17_no_shared_address_escapes`;
+  `c17_no_shared_address_escapes`, `c17_escaped_containers_copy_on_write`,
+  `c17_container_tables_wellformed` (slice/map fields: no header that escapes its critical section
+  belongs to a field whose backing store is written in place);
+* **why that suffices** (`Spine.SliceCow`, abstract): `c17_cow_header_stays_valid`,
+  `c17_inplace_write_hits_handed_out_header`;
 * **connection** of the two: `c17_no_deadlock`, `c17_disciplined_fields_ordered` (exclusive mutex
   model), `c17_disciplined_fields_ordered_rw` (reader/writer model, covers every disciplined field);
 * **reader/writer deadlocks** (`Spine.LockRW`: Go's blocking rule with queued writers, refinement to
@@ -241,6 +246,68 @@ theorem c17_shared_written : ∀ f ∈ sharedFields, (postRows f).any (·.write)
 example : sharedFields ≠ [] ∧
     (sharedFields.any fun f => (commonLock f).isSome && !rwFields.contains f && !undisciplined.contains f) = true := by
   decide +kernel
+
+/-! ## containers (slices, maps): a header that escapes its critical section is copy-on-write -/
+
+/-- no container field has both an escape of its header and an in-place writer of its backing store -/
+def containersCow (esc inp : List (Nat × String)) : Bool :=
+  esc.all fun e => inp.all fun w => e.1 != w.1
+
+/-- every row of the three container tables belongs to a named container field, ids are dense -/
+theorem c17_container_tables_wellformed :
+    (containerEscapes ++ containerInPlace ++ containerCowWrites).all (fun r => decide (r.1 < containerNames.length)) = true ∧
+      List.range containerNames.length = containerNames.map (·.1) := by
+  decide +kernel
+
+/-- **Escaped containers are copy-on-write (instance).** The guarded-by rows cover the loads and
+    stores of a FIELD; for a slice- or map-typed field the elements live in a backing store shared by
+    every copy of the header. On the tree under test no slice/map field of the analysed structs has
+    BOTH a site where the header of its current value leaves the critical section without a copy of
+    the elements (returned by a getter, stored elsewhere, sent, handed to a goroutine, elements read
+    where the field's common lock is not held: `containerEscapes`) AND a site that modifies the
+    backing store in place after construction (element assignment, `copy` into it, `clear`, map
+    update / delete, `append` onto a reslice, a reslice stored back, a callee that does one of these
+    to its parameter — `slices.Delete*`, `Insert`, `Compact*`, `Reverse`, `Sort*` recognised from
+    their SSA bodies: `containerInPlace`). So every writer of a field whose header escapes is one of
+    the copy-on-write writers of `Spine.SliceCow` (`containerCowWrites`: replaced by a value that
+    does not share the old store, or `f = append(f, x)` on the whole value), for which
+    `c17_cow_header_stays_valid` shows that the lock-free reader never sees a cell written after the
+    hand-out. Regenerated by go/lockgraph/containers.go on every run. -/
+theorem c17_escaped_containers_copy_on_write : containersCow containerEscapes containerInPlace = true := by
+  decide +kernel
+
+/-- non-vacuity (independent of the generated rows): a getter that returns the list and an in-place
+    deletion on the same field are rejected; on different fields they are accepted -/
+example : containersCow [(5, "Entities returns d.entities")] [(5, "slices.DeleteFunc(d.entities, …)")] = false ∧
+    containersCow [(5, "Entities returns d.entities")] [(4, "remoteDevices[ski] = d")] = true := by decide
+
+/-- **A handed-out header stays valid under copy-on-write writers (abstract).** In the model of one
+    slice field (`Spine.SliceCow`: backing arrays, headers handed out, cells written per operation),
+    from the initial state every sequence of operations that are all copy-on-write — hand-outs,
+    `f = append(f, x)` in place or reallocating, replacement by a fresh list — never writes a cell
+    covered by a header handed out earlier: any length, any number of readers. The operations all
+    run under the field's mutex (`c17_common_lock_sound`), so each write to a covered cell precedes
+    the hand-out in the mutex order and happens-before every access of the reader. PARTIAL: the
+    last step (mutex order ⇒ `RaceHB.HB` for the reader's lock-free accesses) is an argument, the
+    cells are not locations of `Spine.Race`. -/
+theorem c17_cow_header_stays_valid (ops : List SliceCow.Op) (hc : ∀ op ∈ ops, SliceCow.isCow op = true) :
+    SliceCow.violations SliceCow.init ops = [] :=
+  SliceCow.cow_no_violation SliceCow.init SliceCow.inv_init ops hc
+
+/-- non-vacuity: a run with hand-outs, in-place appends and a removal by replacement -/
+example : (∀ op ∈ SliceCow.cowRun, SliceCow.isCow op = true) ∧ SliceCow.cowRun.length = 8 :=
+  ⟨SliceCow.cowRun_ok.1, rfl⟩
+
+/-- **… and not under in-place writers**: an in-place deletion (`slices.Delete`/`DeleteFunc`) after
+    a hand-out rewrites cells the reader walks; a reslice stored back lets the next append do so.
+    This is why `containerInPlace` must be empty for the fields of `containerEscapes`. -/
+theorem c17_inplace_write_hits_handed_out_header :
+    SliceCow.violations SliceCow.init [.replace 3, .handOut, .deleteInPlace 1] ≠ [] ∧
+    SliceCow.violations SliceCow.init [.replace 3, .handOut, .cutBack 2, .appendOwn true] ≠ [] := by
+  rw [SliceCow.inplace_delete_violates, SliceCow.append_after_cut_violates]; decide
+
+/-- non-vacuity: the two runs differ from a copy-on-write run only in the offending operation -/
+example : SliceCow.violations SliceCow.init [.replace 3, .handOut, .replace 2, .appendOwn true] = [] := by decide
 
 /-! ## connection of instance and abstract theorem -/
 
